@@ -26,14 +26,14 @@ INVALID_SPEC = 'block "IF_DATA" taggedunion {'
 
 def gen_texts(rng, tier):
     texts = []
-    ndocs = 6 if tier == 'quick' else 300
+    ndocs = 6 if tier == 'quick' else 60
     for d in range(ndocs):
         node, text, toks = docs.random_doc(rng, size='tiny', ifdata=rng.choice([None, 'unknown']), a2ml=rng.choice([None, 'simple']))
-        step = max(1, len(text) // (250 if tier == 'quick' else 2000))
+        step = max(1, len(text) // (250 if tier == 'quick' else 500))
         for k in range(0, len(text) + 1, step):
             texts.append(text[:k])
         chunks = loadlib.lex_chunks(text)
-        for _ in range(60 if tier == 'quick' else 600):
+        for _ in range(60 if tier == 'quick' else 300):
             ch = list(chunks)
             k = rng.randrange(len(ch))
             op = rng.randrange(4)
@@ -46,7 +46,7 @@ def gen_texts(rng, tier):
             else:
                 ch[k] = ' ' + rng.choice(SOUP)
             texts.append(''.join(ch))
-    for _ in range(400 if tier == 'quick' else 100000):
+    for _ in range(400 if tier == 'quick' else 30000):
         n = rng.randrange(1, 25)
         texts.append(' '.join(rng.choice(SOUP) for _ in range(n)) if rng.random() < 0.7 else ''.join(rng.choice(SOUP) for _ in range(n)))
     # the raw text of an A2ML block is a String token too: where the block stands in uninterpreted IF_DATA (or anywhere a string is
@@ -139,7 +139,7 @@ def check(tier, seed):
         b = t.encode('utf-8', 'surrogatepass') if isinstance(t, str) else t
         spec = rng.choice([None, None, VALID_SPEC, INVALID_SPEC])
         cfg_cases.append([b, rng.randrange(2), [spec] if spec else [], rng.choice([0, 0, 1, 2])])
-    for _ in range(300 if tier == 'quick' else 150000):
+    for _ in range(300 if tier == 'quick' else 40000):
         n = rng.choice([0, 1, 2, 3, 5, 8, 16, 40, 200])
         cfg_cases.append([bytes(rng.randrange(256) for _ in range(n)), rng.randrange(2), [], 2])
     clines = [sx.enc(c) for c in cfg_cases]
